@@ -23,6 +23,7 @@ pub struct Variant {
     pub key_scheme: u32,
     pub val_scheme: u32,
     pub filter_names: Vec<String>,
+    pub manual_persist: bool,
 }
 
 impl Variant {
@@ -33,13 +34,14 @@ impl Variant {
             key_scheme: ((i / 4) % 4) as u32,
             val_scheme: ((i / 3) % 4) as u32,
             filter_names: filter_names.to_vec(),
+            manual_persist: false,
         }
     }
 
     pub fn describe(&self) -> Value {
         json!({"kv_sep": self.kv_sep, "journal_compression": self.journal_compression,
                "key_scheme": self.key_scheme, "val_scheme": self.val_scheme,
-               "filter_names": self.filter_names})
+               "filter_names": self.filter_names, "manual_persist": self.manual_persist})
     }
 }
 
@@ -104,6 +106,8 @@ pub struct World {
     pub ks: BTreeMap<String, Keyspace>,
     pub held: BTreeMap<u64, Keyspace>,
     pub views: BTreeMap<u64, Snapshot>,
+    /// lazily consumed iterators opened together with a view: vid -> (keyspace, kind, iterator)
+    pub view_iters: BTreeMap<u64, Vec<(String, &'static str, fjall::Iter)>>,
     pub conc: Concretizer,
     pub variant: Variant,
     pub nkeys: u64,
@@ -112,7 +116,9 @@ pub struct World {
 }
 
 pub fn open_db(dir: &Path, variant: &Variant, conc: &Concretizer) -> fjall::Result<Database> {
-    let mut b = Database::builder(dir).worker_threads_unchecked(0);
+    let mut b = Database::builder(dir)
+        .worker_threads_unchecked(0)
+        .manual_journal_persist(variant.manual_persist);
     b = b.journal_compression(if variant.journal_compression {
         fjall::CompressionType::Lz4
     } else {
@@ -140,7 +146,7 @@ pub fn open_db(dir: &Path, variant: &Variant, conc: &Concretizer) -> fjall::Resu
 }
 
 pub fn ks_options(variant: &Variant) -> KeyspaceCreateOptions {
-    let mut o = KeyspaceCreateOptions::default();
+    let mut o = KeyspaceCreateOptions::default().manual_journal_persist(variant.manual_persist);
     if variant.kv_sep {
         o = o.with_kv_separation(Some(
             KvSeparationOptions::default().separation_threshold(64),
@@ -159,6 +165,7 @@ impl World {
             ks: BTreeMap::new(),
             held: BTreeMap::new(),
             views: BTreeMap::new(),
+            view_iters: BTreeMap::new(),
             conc,
             variant,
             nkeys,
@@ -177,6 +184,7 @@ impl World {
     }
 
     pub fn close(&mut self) {
+        self.view_iters.clear();
         self.views.clear();
         self.held.clear();
         self.ks.clear();
@@ -185,6 +193,8 @@ impl World {
 
     pub fn reopen(&mut self) -> Result<(), String> {
         self.close();
+        // a journal written under one compression setting must be readable under the other
+        self.variant.journal_compression = !self.variant.journal_compression;
         let db = open_db(&self.dir, &self.variant, &self.conc).map_err(|e| format!("{e:?}"))?;
         for name in db.list_keyspace_names() {
             // opening an existing keyspace: options passed here must be ignored
@@ -332,19 +342,73 @@ impl World {
             "OpenView" => {
                 let vid = act["vid"].as_u64().unwrap();
                 let s = self.db().snapshot();
+                // iterators taken directly from the keyspaces at the same moment; they are
+                // consumed only when the view is closed (they must still show the old state)
+                let mut its = Vec::new();
+                for (i, (name, k)) in self.ks.iter().enumerate() {
+                    match (vid as usize + i + self.conc.seed as usize) % 4 {
+                        0 => its.push((name.clone(), "iter", k.iter())),
+                        1 => its.push((name.clone(), "range", k.range::<Vec<u8>, _>(..))),
+                        2 => its.push((name.clone(), "prefix", k.prefix(b""))),
+                        _ => {}
+                    }
+                }
                 self.views.insert(vid, s);
+                self.view_iters.insert(vid, its);
                 Ok(())
             }
             "CloseView" => {
                 let vid = act["vid"].as_u64().unwrap();
+                let mut problems = Vec::new();
+                if let Some(its) = self.view_iters.remove(&vid) {
+                    let pv = prev.and_then(|p| {
+                        p["views"].as_array().and_then(|a| a.iter().find(|v| v["vid"].as_u64() == Some(vid)).cloned())
+                    });
+                    for (name, kind, it) in its {
+                        let mut got = vec![0u64; self.nkeys as usize];
+                        let keys: Vec<Vec<u8>> = (1..=self.nkeys).map(|i| self.conc.key(i)).collect();
+                        for g in it {
+                            match g.into_inner() {
+                                Ok((kb, v)) => {
+                                    if let Some(i) = keys.iter().position(|x| x[..] == kb[..]) {
+                                        got[i] = self.conc.unval(&v);
+                                    }
+                                }
+                                Err(e) => problems.push(format!("{kind} iterator of view {vid}: {e:?}")),
+                            }
+                        }
+                        if let Some(pv) = &pv {
+                            let mv = &pv["ks"][&name];
+                            if !mv.is_null() && !mv["tainted"].as_bool().unwrap_or(false) {
+                                let frozen = arr_u64(&mv["frozen"]);
+                                if frozen != got {
+                                    problems.push(format!(
+                                        "Keyspace::{kind} iterator on {name} opened with view {vid} yields {got:?} when consumed later, state at creation was {frozen:?}"
+                                    ));
+                                }
+                            }
+                        }
+                    }
+                }
                 self.views.remove(&vid);
-                Ok(())
+                if problems.is_empty() {
+                    Ok(())
+                } else {
+                    Err(format!("FROZEN-ITER {}", problems.join("; ")))
+                }
             }
             "GC" => {
                 self.db().supervisor.snapshot_tracker.verif_gc();
                 Ok(())
             }
-            "Persist" => self.db().persist(PersistMode::SyncAll).map_err(e),
+            "Persist" => {
+                let mode = match act["mode"].as_str().unwrap_or("SyncAll") {
+                    "Buffer" => PersistMode::Buffer,
+                    "SyncData" => PersistMode::SyncData,
+                    _ => PersistMode::SyncAll,
+                };
+                self.db().persist(mode).map_err(e)
+            }
             "Reopen" => self.reopen(),
             other => Err(format!("unknown action {other}")),
         }
@@ -891,7 +955,8 @@ pub fn compare(w: &mut World, st: &Value, act: &Value, deep: bool) -> Diff {
             }
         }
     }
-    if st["openviews"].as_u64() != Some(db.supervisor.snapshot_tracker.open_snapshots() as u64) {
+    let iter_nonces: u64 = w.view_iters.values().map(|v| v.len() as u64).sum();
+    if st["openviews"].as_u64().map(|x| x + iter_nonces) != Some(db.supervisor.snapshot_tracker.open_snapshots() as u64) {
         // iterators created by the projection are closed by now; only views remain
         d.violations.push(format!(
             "open snapshot count real {} model {}",
@@ -914,6 +979,11 @@ pub fn compare(w: &mut World, st: &Value, act: &Value, deep: bool) -> Diff {
         .unwrap_or(0);
     if on_disk != jc {
         d.violations.push(format!("journal files on disk {on_disk}, journal_count {jc}"));
+    }
+    if st["d15"].as_bool() == Some(true) && jc > 1 {
+        d.known.push(format!(
+            "D15 {jc} journal files remain although every keyspace is flushed: the oldest is pinned by the watermark of a keyspace whose tables were dropped by clear()"
+        ));
     }
     let fq = db.outstanding_flushes() as u64;
     if Some(fq) != st["flushq"].as_u64() {
